@@ -1343,4 +1343,775 @@ theorem instances_eq {cfg : Cfg} {su : Setup} :
       · exact ih
     all_goals exact ih
 
+/-! ## every executable process is started, and every member emits its own stream -/
+
+def trEvs (ts : List Tr) : List Ev := ts.filterMap (fun t => match t with | .ev e => some e | .cease => none)
+
+/-- what the member has emitted so far followed by what it has still to emit -/
+def Member.whole (m : Member) : List Ev := trEvs m.emitted ++ m.todo
+
+theorem whole_emit (m : Member) : m.emit.whole = m.whole := by
+  unfold Member.whole Member.emit Member.nextTr trEvs
+  cases h : m.todo with
+  | nil => simp [List.filterMap_append]
+  | cons e t => simp [List.filterMap_append]
+
+theorem filter_map_set {β : Type} (p : Member → Bool) (g : Member → β) :
+    ∀ (l : List Member) (i : Nat) (m m' : Member), l[i]? = some m → p m' = p m → g m' = g m →
+      ((l.set i m').filter p).map g = (l.filter p).map g := by
+  intro l
+  induction l with
+  | nil => intro i m m' h; simp at h
+  | cons x l ih =>
+    intro i m m' h hp hg
+    cases i with
+    | zero =>
+      simp at h; subst h
+      simp only [List.set_cons_zero, List.filter_cons, hp]
+      split <;> simp [hg]
+    | succ i =>
+      simp at h
+      simp only [List.set_cons_succ, List.filter_cons]
+      split <;> simp [ih i m m' h hp hg]
+
+/-- the streams of the members `StartAll` has started, in order -/
+def startedStreams (s : State) : List (List Ev) := (s.members.filter (·.origin.isNone)).map Member.whole
+
+/-- `StartAll` starts the executable processes in order, each with its own stream; whatever a member has emitted
+and has still to emit is that stream, whatever the rest of the set does -/
+theorem started_streams {cfg : Cfg} {su : Setup} :
+    ∀ s, Reach cfg su s → startedStreams s ++ s.toStart = su.execs := by
+  apply reach_induction
+  · simp [init, startedStreams]
+  · intro s c s' hr ih h
+    unfold startedStreams at ih ⊢
+    have upd : ∀ (i : Nat) (m m' : Member), s.members[i]? = some m → m'.origin = m.origin → m'.whole = m.whole →
+        ((s.members.set i m').filter (·.origin.isNone)).map Member.whole =
+          (s.members.filter (·.origin.isNone)).map Member.whole :=
+      fun i m m' hm ho hw => filter_map_set _ _ _ i m m' hm (by rw [ho]) hw
+    have reg : ∀ (i : Nat) (b : Bool), ((regMember s.members i b).filter (·.origin.isNone)).map Member.whole =
+        (s.members.filter (·.origin.isNone)).map Member.whole := by
+      intro i b
+      unfold regMember
+      split
+      · next m hm => exact upd i m { m with counted := true, lateJoin := b } hm rfl rfl
+      · rfl
+    cases h
+    case saStart str rest hp h1 h2 hfl =>
+      rw [h1] at ih
+      simpa [List.filter_append, Member.whole, trEvs] using ih
+    case saStartReg str rest hp h1 h2 hfl =>
+      rw [h1] at ih
+      simpa [List.filter_append, Member.whole, trEvs] using ih
+    case saRegister i hp h1 => simp only; rw [reg]; exact ih
+    case proc i m hp hm hc hb => simp only; rw [upd i m m.emit hm rfl (whole_emit m)]; exact ih
+    case subscribe i m hp hm hc hs => simp only; rw [upd i m { m with subscribed := true } hm rfl rfl]; exact ih
+    case watchTau i m q hp hm hc hs hf hq => simp only; rw [upd i m { m with queue := q } hm rfl rfl]; exact ih
+    case watchThrow i m tid q hp hm hc hs hf hq => simp only; rw [upd i m { m with queue := q } hm rfl rfl]; exact ih
+    case watchListen i m c q hp hm hc hs hf hq => simp only; rw [upd i m { m with queue := q } hm rfl rfl]; exact ih
+    case watchCease i m q hp hm hc hs hf hq =>
+      simp only; rw [upd i m { m with queue := q, finished := true } hm rfl rfl]; exact ih
+    case runInst tid rest str hp ha hr' hm hro hfl => simpa [List.filter_append] using ih
+    case runInstReg tid rest str hp ha hr' hm hro hfl => simpa [List.filter_append] using ih
+    case runRegister i hp h1 => simp only; rw [reg]; exact ih
+    case waker k wk hp hk hr' hd =>
+      simp only
+      unfold unblock
+      split
+      · next m hm =>
+        split
+        · rw [upd _ m { m with blocked := none } hm rfl rfl]; exact ih
+        · exact ih
+      · exact ih
+    all_goals exact ih
+
+/-- a member instantiated for throw event `id` runs the stream of the waiting process the message flow of `id` points to -/
+theorem instance_streams {cfg : Cfg} {su : Setup} :
+    ∀ s, Reach cfg su s → ∀ m ∈ s.members, ∀ id, m.origin = some id →
+      ∃ w, su.target id = some (.start w) ∧ su.waitings[w]? = some m.whole := by
+  apply reach_induction
+  · simp [init]
+  · intro s c s' hr ih h
+    have keep : ∀ (i : Nat) (m m' : Member), s.members[i]? = some m → m'.origin = m.origin → m'.whole = m.whole →
+        ∀ x ∈ s.members.set i m', ∀ id, x.origin = some id →
+          ∃ w, su.target id = some (.start w) ∧ su.waitings[w]? = some x.whole := by
+      intro i m m' hm ho hw
+      refine forall_set ih ?_
+      intro id hid
+      rw [hw]
+      exact ih m (List.mem_of_getElem? hm) id (ho ▸ hid)
+    cases h
+    case saStart => exact forall_append_one ih (by simp)
+    case saStartReg => exact forall_append_one ih (by simp)
+    case saRegister => exact forall_regMember ih (fun m _ hm => hm)
+    case proc i m hp hm hc hb => exact keep i m m.emit hm rfl (whole_emit m)
+    case subscribe i m hp hm hc hs => exact keep i m { m with subscribed := true } hm rfl rfl
+    case watchTau i m q hp hm hc hs hf hq => exact keep i m { m with queue := q } hm rfl rfl
+    case watchThrow i m tid q hp hm hc hs hf hq => exact keep i m { m with queue := q } hm rfl rfl
+    case watchListen i m c q hp hm hc hs hf hq => exact keep i m { m with queue := q } hm rfl rfl
+    case watchCease i m q hp hm hc hs hf hq => exact keep i m { m with queue := q, finished := true } hm rfl rfl
+    case runInst tid rest str hp ha hr' hm hro hfl =>
+      refine forall_append_one ih ?_
+      intro id hid
+      simp only [Option.some.injEq] at hid
+      subst hid
+      obtain ⟨w, h1, h2⟩ := route_inst hro
+      exact ⟨w, h1, by simpa [Member.whole, trEvs] using h2⟩
+    case runInstReg tid rest str hp ha hr' hm hro hfl =>
+      refine forall_append_one ih ?_
+      intro id hid
+      simp only [Option.some.injEq] at hid
+      subst hid
+      obtain ⟨w, h1, h2⟩ := route_inst hro
+      exact ⟨w, h1, by simpa [Member.whole, trEvs] using h2⟩
+    case runRegister => exact forall_regMember ih (fun m _ hm => hm)
+    case waker => exact forall_unblock ih (fun m _ hm => hm)
+    all_goals exact ih
+
+/-! ## wake-up goroutines: a pending one belongs to a member that still waits at its catch event -/
+
+def isListen : Tr → Bool
+  | .ev (.listen _) => true
+  | _ => false
+
+structure WakerInv (s : State) : Prop where
+  /-- a listening trace in a watcher's channel: its process waits at that catch event -/
+  l1 : ∀ (i : Nat) (m : Member) (c : Nat), s.members[i]? = some m → Tr.ev (.listen c) ∈ m.queue → m.blocked = some c
+  /-- at most one listening trace per channel -/
+  l2 : ∀ (i : Nat) (m : Member), s.members[i]? = some m → (m.queue.filter isListen).length ≤ 1
+  /-- a pending waker: its process waits at its catch event -/
+  k1 : ∀ (k : Nat) (wk : Waker), s.wakers[k]? = some wk → wk.done = false →
+        ∃ m, s.members[wk.member]? = some m ∧ m.blocked = some wk.c
+  /-- at most one pending waker per member -/
+  k2 : ∀ (k k' : Nat) (wk wk' : Waker), s.wakers[k]? = some wk → s.wakers[k']? = some wk' → wk.done = false →
+        wk'.done = false → wk.member = wk'.member → k = k'
+  /-- a listening trace still in the channel: no pending waker for that member yet -/
+  k3 : ∀ (i : Nat) (m : Member), s.members[i]? = some m → (∃ t ∈ m.queue, isListen t = true) →
+        ∀ (k : Nat) (wk : Waker), s.wakers[k]? = some wk → wk.member = i → wk.done = true
+
+/-- an update of member `i` that keeps `blocked` and does not add to its channel; wakers untouched -/
+theorem wakerInv_frame {s : State} (inv : WakerInv s) {i : Nat} {m m' : Member} (hm : s.members[i]? = some m)
+    (hb : m'.blocked = m.blocked) (hq : ∀ t, t ∈ m'.queue → t ∈ m.queue)
+    (hl : (m'.queue.filter isListen).length ≤ (m.queue.filter isListen).length)
+    {ms : List Member} (hms : ms = s.members.set i m') {wks : List Waker} (hw : wks = s.wakers)
+    {s' : State} (h1 : s'.members = ms) (h2 : s'.wakers = wks) : WakerInv s' := by
+  subst hms hw
+  have get : ∀ (j : Nat) (x : Member), s'.members[j]? = some x → (j = i ∧ x = m') ∨ (j ≠ i ∧ s.members[j]? = some x) := by
+    intro j x hj
+    rw [h1, getElem?_set_of hm] at hj
+    split at hj
+    · next h => cases hj; exact Or.inl ⟨h, rfl⟩
+    · next h => exact Or.inr ⟨h, hj⟩
+  constructor
+  · intro j x c hj hc
+    rcases get j x hj with ⟨rfl, rfl⟩ | ⟨_, hj'⟩
+    · rw [hb]; exact inv.l1 _ m c hm (hq _ hc)
+    · exact inv.l1 j x c hj' hc
+  · intro j x hj
+    rcases get j x hj with ⟨rfl, rfl⟩ | ⟨_, hj'⟩
+    · exact Nat.le_trans hl (inv.l2 _ m hm)
+    · exact inv.l2 j x hj'
+  · intro k wk hk hd
+    rw [h2] at hk
+    obtain ⟨x, hx, hxb⟩ := inv.k1 k wk hk hd
+    rw [h1, getElem?_set_of hm]
+    by_cases hji : wk.member = i
+    · rw [hji] at hx; rw [hm] at hx; cases hx
+      exact ⟨m', by simp [hji], by rw [hb]; exact hxb⟩
+    · exact ⟨x, by simp [hji, hx], hxb⟩
+  · intro k k' wk wk' hk hk'
+    rw [h2] at hk hk'
+    exact inv.k2 k k' wk wk' hk hk'
+  · intro j x hj hex k wk hk hmem
+    rw [h2] at hk
+    rcases get j x hj with ⟨rfl, rfl⟩ | ⟨_, hj'⟩
+    · obtain ⟨t, ht, htl⟩ := hex
+      exact inv.k3 _ m hm ⟨t, hq t ht, htl⟩ k wk hk hmem
+    · exact inv.k3 j x hj' hex k wk hk hmem
+
+/-- a new member with an empty channel -/
+theorem wakerInv_append {s : State} (inv : WakerInv s) {x : Member} (hx : x.queue = [])
+    {s' : State} (h1 : s'.members = s.members ++ [x]) (h2 : s'.wakers = s.wakers) : WakerInv s' := by
+  have get : ∀ (j : Nat) (y : Member), s'.members[j]? = some y → y = x ∨ s.members[j]? = some y := by
+    intro j y hj
+    rw [h1, getElem?_append_new] at hj
+    split at hj
+    · exact Or.inr hj
+    · split at hj
+      · cases hj; exact Or.inl rfl
+      · cases hj
+  constructor
+  · intro j y c hj hc
+    rcases get j y hj with rfl | hj'
+    · rw [hx] at hc; cases hc
+    · exact inv.l1 j y c hj' hc
+  · intro j y hj
+    rcases get j y hj with rfl | hj'
+    · simp [hx]
+    · exact inv.l2 j y hj'
+  · intro k wk hk hd
+    rw [h2] at hk
+    obtain ⟨y, hy, hyb⟩ := inv.k1 k wk hk hd
+    exact ⟨y, by rw [h1]; exact getElem?_append_old hy _, hyb⟩
+  · intro k k' wk wk' hk hk'
+    rw [h2] at hk hk'
+    exact inv.k2 k k' wk wk' hk hk'
+  · intro j y hj hex k wk hk hmem
+    rw [h2] at hk
+    rcases get j y hj with rfl | hj'
+    · obtain ⟨t, ht, _⟩ := hex; rw [hx] at ht; cases ht
+    · exact inv.k3 j y hj' hex k wk hk hmem
+
+theorem wakerInv_regMember {s : State} (inv : WakerInv s) (i : Nat) (b : Bool)
+    {s' : State} (h1 : s'.members = regMember s.members i b) (h2 : s'.wakers = s.wakers) : WakerInv s' := by
+  unfold regMember at h1
+  split at h1
+  · next m hm =>
+    exact wakerInv_frame inv hm (m' := { m with counted := true, lateJoin := b }) rfl (fun _ h => h) (Nat.le_refl _) rfl rfl h1 h2
+  · exact ⟨by rw [h1]; exact inv.l1, by rw [h1]; exact inv.l2, by rw [h1, h2]; exact inv.k1, by rw [h2]; exact inv.k2,
+      by rw [h1, h2]; exact inv.k3⟩
+
+theorem filter_isListen_tail {t : Tr} {q : List Tr} : (q.filter isListen).length ≤ ((t :: q).filter isListen).length := by
+  simp only [List.filter_cons]; split <;> simp
+
+theorem wakerInv_inv {cfg : Cfg} {su : Setup} : ∀ s, Reach cfg su s → WakerInv s := by
+  apply reach_induction
+  · exact ⟨by simp [init], by simp [init], by simp [init], by simp [init], by simp [init]⟩
+  · intro s c s' hr inv h
+    have same : ∀ s' : State, s'.members = s.members → s'.wakers = s.wakers → WakerInv s' := by
+      intro s' h1 h2
+      exact ⟨by rw [h1]; exact inv.l1, by rw [h1]; exact inv.l2, by rw [h1, h2]; exact inv.k1, by rw [h2]; exact inv.k2,
+        by rw [h1, h2]; exact inv.k3⟩
+    cases h
+    case saStart => exact wakerInv_append inv rfl rfl rfl
+    case saStartReg => exact wakerInv_append inv rfl rfl rfl
+    case saRegister i hp h1 => exact wakerInv_regMember inv i _ rfl rfl
+    case runInst => exact wakerInv_append inv rfl rfl rfl
+    case runInstReg => exact wakerInv_append inv rfl rfl rfl
+    case runRegister i hp h1 => exact wakerInv_regMember inv i _ rfl rfl
+    case subscribe i m hp hm hc hs =>
+      exact wakerInv_frame inv hm (m' := { m with subscribed := true }) rfl (fun _ h => h) (Nat.le_refl _) rfl rfl rfl rfl
+    case watchTau i m q hp hm hc hs hf hq =>
+      exact wakerInv_frame inv hm (m' := { m with queue := q }) rfl (fun t h => by rw [hq]; exact List.mem_cons_of_mem _ h)
+        (by rw [hq]; exact filter_isListen_tail) rfl rfl rfl rfl
+    case watchThrow i m tid q hp hm hc hs hf hq =>
+      exact wakerInv_frame inv hm (m' := { m with queue := q }) rfl (fun t h => by rw [hq]; exact List.mem_cons_of_mem _ h)
+        (by rw [hq]; exact filter_isListen_tail) rfl rfl rfl rfl
+    case watchCease i m q hp hm hc hs hf hq =>
+      exact wakerInv_frame inv hm (m' := { m with queue := q, finished := true }) rfl
+        (fun t h => by rw [hq]; exact List.mem_cons_of_mem _ h) (by rw [hq]; exact filter_isListen_tail) rfl rfl rfl rfl
+    case runDrop => exact same _ rfl rfl
+    case runDone => exact same _ rfl rfl
+    case waitCall => exact same _ rfl rfl
+    case closeFirst => exact same _ rfl rfl
+    case closeGuarded => exact same _ rfl rfl
+    case closeAgain => exact same _ rfl rfl
+    case waitReturn => exact same _ rfl rfl
+    case waitTimeout => exact same _ rfl rfl
+    case runWake tid rest c k wk hp ha hr' hm hro =>
+      have hk := (route_wake hro).1
+      have get : ∀ (j : Nat) (x : Waker), (s.wakers.set k { wk with ready := true })[j]? = some x →
+          ∃ y : Waker, s.wakers[j]? = some y ∧ x.c = y.c ∧ x.member = y.member ∧ x.done = y.done := by
+        intro j x hj
+        rw [getElem?_set_of hk] at hj
+        split at hj
+        · next h => cases hj; subst h; exact ⟨wk, hk, rfl, rfl, rfl⟩
+        · exact ⟨x, hj, rfl, rfl, rfl⟩
+      constructor
+      · exact inv.l1
+      · exact inv.l2
+      · intro j x hj hd
+        obtain ⟨y, hy, e1, e2, e3⟩ := get j x hj
+        rw [e1, e2]; exact inv.k1 j y hy (e3 ▸ hd)
+      · intro j j' x x' hj hj' hd hd' hmm
+        obtain ⟨y, hy, _, e2, e3⟩ := get j x hj
+        obtain ⟨y', hy', _, e2', e3'⟩ := get j' x' hj'
+        exact inv.k2 j j' y y' hy hy' (e3 ▸ hd) (e3' ▸ hd') (by rw [← e2, ← e2']; exact hmm)
+      · intro j x hj hex j' x' hj' hmm
+        obtain ⟨y', hy', _, e2', e3'⟩ := get j' x' hj'
+        rw [e3']; exact inv.k3 j x hj hex j' y' hy' (e2' ▸ hmm)
+    case proc i m hp hm hc hb =>
+      -- the process is not waiting at a catch event: no listening trace in its channel, no pending waker for it
+      have noListen : ∀ c, Tr.ev (.listen c) ∉ m.queue := by
+        intro c hcq
+        have := inv.l1 i m c hm hcq
+        rw [hb] at this; cases this
+      have noFilter : m.queue.filter isListen = [] := by
+        rw [List.filter_eq_nil_iff]
+        intro t ht htl
+        cases t with
+        | cease => cases htl
+        | ev e =>
+          cases e with
+          | listen c => exact noListen c ht
+          | tau => cases htl
+          | throw _ => cases htl
+      have noWaker : ∀ (k : Nat) (wk : Waker), s.wakers[k]? = some wk → wk.done = false → wk.member ≠ i := by
+        intro k wk hk hd hmem
+        obtain ⟨x, hx, hxb⟩ := inv.k1 k wk hk hd
+        rw [hmem, hm] at hx; cases hx
+        rw [hb] at hxb; cases hxb
+      have get : ∀ (j : Nat) (x : Member), (s.members.set i m.emit)[j]? = some x → (j = i ∧ x = m.emit) ∨ (j ≠ i ∧ s.members[j]? = some x) := by
+        intro j x hj
+        rw [getElem?_set_of hm] at hj
+        split at hj
+        · next h => cases hj; exact Or.inl ⟨h, rfl⟩
+        · next h => exact Or.inr ⟨h, hj⟩
+      have qmem : ∀ t, t ∈ m.emit.queue → t ∈ m.queue ∨ t = m.nextTr := by
+        intro t ht
+        unfold Member.emit at ht
+        simp only at ht
+        split at ht
+        · simp only [List.mem_append, List.mem_singleton] at ht; exact ht
+        · exact Or.inl ht
+      constructor
+      · intro j x c hj hcq
+        rcases get j x hj with ⟨rfl, rfl⟩ | ⟨_, hj'⟩
+        · rcases qmem _ hcq with h | h
+          · exact absurd h (noListen c)
+          · unfold Member.emit; simp only; rw [← h]
+        · exact inv.l1 j x c hj' hcq
+      · intro j x hj
+        rcases get j x hj with ⟨rfl, rfl⟩ | ⟨_, hj'⟩
+        · unfold Member.emit
+          simp only
+          split
+          · rw [List.filter_append, noFilter]; simp only [List.nil_append, List.filter_cons, List.filter_nil]; split <;> simp
+          · rw [noFilter]; simp
+        · exact inv.l2 j x hj'
+      · intro k wk hk hd
+        obtain ⟨x, hx, hxb⟩ := inv.k1 k wk hk hd
+        have hne := noWaker k wk hk hd
+        exact ⟨x, by rw [getElem?_set_of hm]; simp [hne, hx], hxb⟩
+      · exact inv.k2
+      · intro j x hj hex k wk hk hmem
+        rcases get j x hj with ⟨rfl, rfl⟩ | ⟨_, hj'⟩
+        · cases hd : wk.done with
+          | true => rfl
+          | false => exact absurd hmem (noWaker k wk hk hd)
+        · exact inv.k3 j x hj' hex k wk hk hmem
+    case watchListen i m c q hp hm hc hs hf hq =>
+      have hblk : m.blocked = some c := inv.l1 i m c hm (by rw [hq]; exact List.mem_cons_self)
+      have hqn : q.filter isListen = [] := by
+        have := inv.l2 i m hm
+        rw [hq] at this
+        simp only [List.filter_cons, isListen, if_true, List.length_cons] at this
+        exact List.eq_nil_of_length_eq_zero (by omega)
+      have allDone : ∀ (k : Nat) (wk : Waker), s.wakers[k]? = some wk → wk.member = i → wk.done = true :=
+        inv.k3 i m hm ⟨_, by rw [hq]; exact List.mem_cons_self, rfl⟩
+      have getm : ∀ (j : Nat) (x : Member), (s.members.set i { m with queue := q })[j]? = some x →
+          (j = i ∧ x = { m with queue := q }) ∨ (j ≠ i ∧ s.members[j]? = some x) := by
+        intro j x hj
+        rw [getElem?_set_of hm] at hj
+        split at hj
+        · next h => cases hj; exact Or.inl ⟨h, rfl⟩
+        · next h => exact Or.inr ⟨h, hj⟩
+      have getw : ∀ (k : Nat) (wk : Waker), (s.wakers ++ [({ c := c, member := i } : Waker)])[k]? = some wk →
+          s.wakers[k]? = some wk ∨ (k = s.wakers.length ∧ wk = { c := c, member := i }) := by
+        intro k wk hk
+        rw [getElem?_append_new] at hk
+        split at hk
+        · exact Or.inl hk
+        · split at hk
+          · next h => cases hk; exact Or.inr ⟨h, rfl⟩
+          · cases hk
+      constructor
+      · intro j x c' hj hcq
+        rcases getm j x hj with ⟨rfl, rfl⟩ | ⟨_, hj'⟩
+        · exact inv.l1 _ m c' hm (by rw [hq]; exact List.mem_cons_of_mem _ hcq)
+        · exact inv.l1 j x c' hj' hcq
+      · intro j x hj
+        rcases getm j x hj with ⟨rfl, rfl⟩ | ⟨_, hj'⟩
+        · simp [hqn]
+        · exact inv.l2 j x hj'
+      · intro k wk hk hd
+        rcases getw k wk hk with hk' | ⟨_, rfl⟩
+        · obtain ⟨x, hx, hxb⟩ := inv.k1 k wk hk' hd
+          rw [getElem?_set_of hm]
+          by_cases hji : wk.member = i
+          · rw [hji, hm] at hx; cases hx
+            exact ⟨{ m with queue := q }, by simp [hji], hxb⟩
+          · exact ⟨x, by simp [hji, hx], hxb⟩
+        · exact ⟨{ m with queue := q }, by rw [getElem?_set_of hm]; simp, hblk⟩
+      · intro k k' wk wk' hk hk' hd hd' hmm
+        rcases getw k wk hk with h1 | ⟨e1, rfl⟩ <;> rcases getw k' wk' hk' with h2 | ⟨e2, rfl⟩
+        · exact inv.k2 k k' wk wk' h1 h2 hd hd' hmm
+        · have := allDone k wk h1 hmm; rw [hd] at this; cases this
+        · have := allDone k' wk' h2 hmm.symm; rw [hd'] at this; cases this
+        · rw [e1, e2]
+      · intro j x hj hex k wk hk hmem
+        rcases getm j x hj with ⟨rfl, rfl⟩ | ⟨hji, hj'⟩
+        · obtain ⟨t, ht, htl⟩ := hex
+          have : t ∈ q.filter isListen := List.mem_filter.mpr ⟨ht, htl⟩
+          rw [hqn] at this; cases this
+        · rcases getw k wk hk with hk' | ⟨_, rfl⟩
+          · exact inv.k3 j x hj' hex k wk hk' hmem
+          · exact absurd hmem.symm hji
+    case waker k wk hp hk hr' hd =>
+      -- the member of the firing waker has no listening trace in its channel and no other pending waker
+      have getw : ∀ (j : Nat) (x : Waker), (s.wakers.set k { wk with done := true })[j]? = some x →
+          (j = k ∧ x = { wk with done := true }) ∨ (j ≠ k ∧ s.wakers[j]? = some x) := by
+        intro j x hj
+        rw [getElem?_set_of hk] at hj
+        split at hj
+        · next h => cases hj; exact Or.inl ⟨h, rfl⟩
+        · next h => exact Or.inr ⟨h, hj⟩
+      have getm : ∀ (j : Nat) (x : Member), (unblock s.members wk.member wk.c)[j]? = some x →
+          ∃ y : Member, s.members[j]? = some y ∧ x.queue = y.queue ∧
+            ((j = wk.member ∧ y.blocked = some wk.c ∧ x.blocked = none) ∨ x.blocked = y.blocked) := by
+        intro j x hj
+        rw [unblock_getElem?] at hj
+        cases hy : s.members[j]? with
+        | none => rw [hy] at hj; cases hj
+        | some y =>
+          rw [hy] at hj
+          simp only [Option.map_some, Option.some.injEq] at hj
+          refine ⟨y, rfl, ?_, ?_⟩
+          · rw [← hj]; split <;> rfl
+          · rw [← hj]
+            split
+            · next h => exact Or.inl ⟨h.1, h.2, rfl⟩
+            · exact Or.inr rfl
+      constructor
+      · intro j x c hj hcq
+        obtain ⟨y, hy, e1, e2⟩ := getm j x hj
+        rw [e1] at hcq
+        rcases e2 with ⟨hjm, _, _⟩ | e2
+        · have := inv.k3 j y hy ⟨_, hcq, rfl⟩ k wk hk hjm.symm
+          rw [hd] at this; cases this
+        · rw [e2]; exact inv.l1 j y c hy hcq
+      · intro j x hj
+        obtain ⟨y, hy, e1, _⟩ := getm j x hj
+        rw [e1]; exact inv.l2 j y hy
+      · intro j x hj hdx
+        rcases getw j x hj with ⟨_, rfl⟩ | ⟨hjk, hj'⟩
+        · cases hdx
+        · obtain ⟨y, hy, hyb⟩ := inv.k1 j x hj' hdx
+          have hne : x.member ≠ wk.member := fun e => hjk (inv.k2 j k x wk hj' hk hdx hd e)
+          refine ⟨y, ?_, hyb⟩
+          rw [unblock_getElem?, hy]
+          simp [hne]
+      · intro j j' x x' hj hj' hdx hdx' hmm
+        rcases getw j x hj with ⟨_, rfl⟩ | ⟨_, h1⟩
+        · cases hdx
+        · rcases getw j' x' hj' with ⟨_, rfl⟩ | ⟨_, h2⟩
+          · cases hdx'
+          · exact inv.k2 j j' x x' h1 h2 hdx hdx' hmm
+      · intro j x hj hex j' x' hj' hmm
+        obtain ⟨y, hy, e1, _⟩ := getm j x hj
+        rw [e1] at hex
+        rcases getw j' x' hj' with ⟨_, rfl⟩ | ⟨_, h2⟩
+        · rfl
+        · exact inv.k3 j y hy hex j' x' h2 hmm
+
+/-- every member completed ⇒ no wake-up goroutine is left waiting -/
+theorem wakers_done_of_all_ceased {cfg : Cfg} {su : Setup} (s : State) (hr : Reach cfg su s)
+    (hall : ∀ m ∈ s.members, m.ceased = true) : ∀ wk ∈ s.wakers, wk.done = true := by
+  intro wk hwk
+  cases hd : wk.done with
+  | true => rfl
+  | false =>
+    obtain ⟨k, hk⟩ := List.mem_iff_getElem?.mp hwk
+    obtain ⟨m, hm, hb⟩ := (wakerInv_inv s hr).k1 k wk hk hd
+    have hmem := List.mem_of_getElem? hm
+    have := (memberOK_inv s hr m hmem).ceased_done (hall m hmem)
+    rw [this.2] at hb; cases hb
+
+/-! ## nothing follows the cease-flow trace in a watcher's channel -/
+
+structure QueueOK (m : Member) : Prop where
+  after_cease : ∀ q1 q2, m.queue = q1 ++ q2 → Tr.cease ∈ q1 → q2 = []
+  fin_empty : m.finished = true → m.queue = []
+
+theorem queueOK_inv {cfg : Cfg} {su : Setup} : ∀ s, Reach cfg su s → ∀ m ∈ s.members, QueueOK m := by
+  apply reach_induction
+  · simp [init]
+  · intro s c s' hr ih h
+    have hok := memberOK_inv s hr
+    have pop : ∀ (m : Member) (t : Tr) (q : List Tr) (m' : Member), m ∈ s.members → m.queue = t :: q → m'.queue = q →
+        m.finished = false → (m'.finished = true → t = .cease) → QueueOK m' := by
+      intro m t q m' hmem hq hq' hf hfin
+      have := ih m hmem
+      constructor
+      · intro q1 q2 e hc
+        rw [hq'] at e
+        exact this.after_cease (t :: q1) q2 (by rw [hq, e]; rfl) (List.mem_cons_of_mem _ hc)
+      · intro hf'
+        rw [hq']
+        have ht := hfin hf'
+        subst ht
+        exact this.after_cease [.cease] q (by rw [hq]; rfl) (by simp)
+    have fresh : ∀ m : Member, m.queue = [] → QueueOK m := by
+      intro m hq
+      refine ⟨?_, fun _ => hq⟩
+      intro q1 q2 e hc
+      rw [hq] at e
+      have h1 : q1 = [] := (List.append_eq_nil_iff.mp e.symm).1
+      rw [h1] at hc
+      cases hc
+    cases h
+    case saStart => exact forall_append_one ih (fresh _ rfl)
+    case saStartReg => exact forall_append_one ih (fresh _ rfl)
+    case runInst => exact forall_append_one ih (fresh _ rfl)
+    case runInstReg => exact forall_append_one ih (fresh _ rfl)
+    case saRegister => exact forall_regMember ih (fun m _ hm => ⟨hm.after_cease, hm.fin_empty⟩)
+    case runRegister => exact forall_regMember ih (fun m _ hm => ⟨hm.after_cease, hm.fin_empty⟩)
+    case waker => exact forall_unblock ih (fun m _ hm => ⟨hm.after_cease, hm.fin_empty⟩)
+    case subscribe i m hp hm hc hs =>
+      have := ih m (List.mem_of_getElem? hm)
+      exact forall_set ih ⟨this.after_cease, this.fin_empty⟩
+    case watchTau i m q hp hm hc hs hf hq =>
+      exact forall_set ih (pop m _ q { m with queue := q } (List.mem_of_getElem? hm) hq rfl hf (fun h => by rw [hf] at h; cases h))
+    case watchThrow i m tid q hp hm hc hs hf hq =>
+      exact forall_set ih (pop m _ q { m with queue := q } (List.mem_of_getElem? hm) hq rfl hf (fun h => by rw [hf] at h; cases h))
+    case watchListen i m c q hp hm hc hs hf hq =>
+      exact forall_set ih (pop m _ q { m with queue := q } (List.mem_of_getElem? hm) hq rfl hf (fun h => by rw [hf] at h; cases h))
+    case watchCease i m q hp hm hc hs hf hq =>
+      exact forall_set ih (pop m _ q { m with queue := q, finished := true } (List.mem_of_getElem? hm) hq rfl hf (fun _ => rfl))
+    case proc i m hp hm hc hb =>
+      have hmem := List.mem_of_getElem? hm
+      have this := ih m hmem
+      have hnc : Tr.cease ∉ m.queue := fun h => by
+        have := (hok m hmem).cease_queue h
+        rw [hc] at this; cases this
+      have hnf : m.finished = false := by
+        cases hf : m.finished with
+        | false => rfl
+        | true => have := (hok m hmem).fin_ceased hf; rw [hc] at this; cases this
+      refine forall_set ih ⟨?_, ?_⟩
+      · intro q1 q2 e hc1
+        unfold Member.emit at e
+        simp only at e
+        split at e
+        · -- subscribed: the new trace is the last one
+          rcases List.eq_nil_or_concat q2 with h2 | ⟨q2', t, h2⟩
+          · exact h2
+          · exfalso
+            rw [h2, List.concat_eq_append, ← List.append_assoc] at e
+            have := List.append_inj_left' e (by simp)
+            exact hnc (by rw [this]; exact List.mem_append_left _ hc1)
+        · exfalso
+          exact hnc (by rw [e]; exact List.mem_append_left _ hc1)
+      · intro hf
+        have : m.emit.finished = m.finished := rfl
+        rw [this, hnf] at hf; cases hf
+    all_goals exact ih
+
+/-! ## waits called after `StartAll` has returned -/
+
+structure EarlyInv (s : State) : Prop where
+  /-- no call before `StartAll` returned: once there is a call, `StartAll` is through -/
+  e1 : s.earlyWait = false → s.waits ≠ [] → s.toStart = [] ∧ s.saPending = none
+  /-- `done` is closed by the goroutine of some call -/
+  e2 : 1 ≤ s.closes → s.waits ≠ []
+  /-- the member `run` is about to register was instantiated for a message -/
+  po : ∀ i, s.runPending = some i → ∃ m, s.members[i]? = some m ∧ m.origin.isSome = true
+  /-- a member registered after the close was instantiated for a message, or a call was made too early -/
+  lj : ∀ m ∈ s.members, m.lateJoin = true → m.origin.isSome = true ∨ s.earlyWait = true
+  /-- the member `StartAll` is about to register is an executable process -/
+  so : ∀ i, s.saPending = some i → ∃ m, s.members[i]? = some m ∧ m.origin = none
+
+theorem earlyInv_inv {cfg : Cfg} {su : Setup} : ∀ s, Reach cfg su s → EarlyInv s := by
+  apply reach_induction
+  · exact ⟨by simp [init], by simp [init], by simp [init], by simp [init], by simp [init]⟩
+  · intro s c s' hr inv h
+    -- an update of one member that keeps `origin` and `lateJoin`; everything else of interest untouched
+    have upd : ∀ (i : Nat) (m m' : Member) (s' : State), s.members[i]? = some m → m'.origin = m.origin →
+        m'.lateJoin = m.lateJoin → s'.members = s.members.set i m' → s'.earlyWait = s.earlyWait → s'.waits = s.waits →
+        s'.toStart = s.toStart → s'.saPending = s.saPending → s'.closes = s.closes → s'.runPending = s.runPending →
+        EarlyInv s' := by
+      intro i m m' s' hm ho hl h1 h2 h3 h4 h5 h6 h7
+      have get : ∀ (j : Nat) (x : Member), s.members[j]? = some x → ∃ x' : Member, s'.members[j]? = some x' ∧ x'.origin = x.origin := by
+        intro j x hj
+        rw [h1, getElem?_set_of hm]
+        by_cases hji : j = i
+        · subst hji; rw [hm] at hj; cases hj; exact ⟨m', by simp, ho⟩
+        · exact ⟨x, by simp [hji, hj], rfl⟩
+      refine ⟨by rw [h2, h3, h4, h5]; exact inv.e1, by rw [h6, h3]; exact inv.e2, ?_, ?_, ?_⟩
+      · intro j hj
+        rw [h7] at hj
+        obtain ⟨x, hx, hxo⟩ := inv.po j hj
+        obtain ⟨x', hx', e⟩ := get j x hx
+        exact ⟨x', hx', by rw [e]; exact hxo⟩
+      · rw [h1, h2]
+        refine forall_set inv.lj ?_
+        intro hlj
+        rw [ho]; exact inv.lj m (List.mem_of_getElem? hm) (hl ▸ hlj)
+      · intro j hj
+        rw [h5] at hj
+        obtain ⟨x, hx, hxo⟩ := inv.so j hj
+        obtain ⟨x', hx', e⟩ := get j x hx
+        exact ⟨x', hx', by rw [e]; exact hxo⟩
+    -- steps that touch none of the fields the invariant talks about
+    have same : ∀ s' : State, s'.members = s.members → s'.earlyWait = s.earlyWait → s'.waits = s.waits →
+        s'.toStart = s.toStart → s'.saPending = s.saPending → s'.closes = s.closes → s'.runPending = s.runPending →
+        EarlyInv s' := by
+      intro s' h1 h2 h3 h4 h5 h6 h7
+      exact ⟨by rw [h2, h3, h4, h5]; exact inv.e1, by rw [h6, h3]; exact inv.e2, by rw [h7, h1]; exact inv.po,
+        by rw [h1, h2]; exact inv.lj, by rw [h5, h1]; exact inv.so⟩
+    cases h
+    case saStart str rest hp h1 h2 hfl =>
+      refine ⟨?_, inv.e2, ?_, ?_, ?_⟩
+      · intro he hw
+        have := (inv.e1 he hw).1
+        rw [h1] at this; cases this
+      · intro i hi
+        obtain ⟨m, hm, ho⟩ := inv.po i hi
+        exact ⟨m, getElem?_append_old hm _, ho⟩
+      · exact forall_append_one inv.lj (by simp)
+      · intro i hi
+        simp only [Option.some.injEq] at hi
+        subst hi
+        exact ⟨{ todo := str, subscribed := cfg.subBeforeStart }, by simp, rfl⟩
+    case saStartReg str rest hp h1 h2 hfl =>
+      refine ⟨?_, inv.e2, ?_, ?_, by simp⟩
+      · intro he hw
+        have := (inv.e1 he hw).1
+        rw [h1] at this; cases this
+      · intro i hi
+        obtain ⟨m, hm, ho⟩ := inv.po i hi
+        exact ⟨m, getElem?_append_old hm _, ho⟩
+      · refine forall_append_one inv.lj ?_
+        intro hlj
+        simp only [decide_eq_true_eq] at hlj
+        refine Or.inr ?_
+        cases he : s.earlyWait with
+        | true => rfl
+        | false =>
+          have := (inv.e1 he (inv.e2 hlj)).1
+          rw [h1] at this; cases this
+    case saRegister i hp h1 =>
+      obtain ⟨m0, hm0, ho0⟩ := inv.so i h1
+      refine ⟨?_, inv.e2, ?_, ?_, by simp⟩
+      · intro he hw
+        have := (inv.e1 he hw).2
+        rw [h1] at this; cases this
+      · intro j hj
+        obtain ⟨m, hm, ho⟩ := inv.po j hj
+        rw [regMember_getElem?]
+        by_cases hji : j = i
+        · subst hji; rw [hm]; exact ⟨{ m with counted := true, lateJoin := decide (1 ≤ s.closes) }, by simp, ho⟩
+        · exact ⟨m, by simp [hji, hm], ho⟩
+      · refine forall_regMember inv.lj ?_
+        intro m hmem hP hlj
+        simp only [decide_eq_true_eq] at hlj
+        refine Or.inr ?_
+        cases he : s.earlyWait with
+        | true => rfl
+        | false =>
+          have := (inv.e1 he (inv.e2 hlj)).2
+          rw [h1] at this; cases this
+    case proc i m hp hm hc hb => exact upd i m m.emit _ hm rfl rfl rfl rfl rfl rfl rfl rfl rfl
+    case subscribe i m hp hm hc hs => exact upd i m { m with subscribed := true } _ hm rfl rfl rfl rfl rfl rfl rfl rfl rfl
+    case watchTau i m q hp hm hc hs hf hq => exact upd i m { m with queue := q } _ hm rfl rfl rfl rfl rfl rfl rfl rfl rfl
+    case watchThrow i m tid q hp hm hc hs hf hq => exact upd i m { m with queue := q } _ hm rfl rfl rfl rfl rfl rfl rfl rfl rfl
+    case watchListen i m c q hp hm hc hs hf hq => exact upd i m { m with queue := q } _ hm rfl rfl rfl rfl rfl rfl rfl rfl rfl
+    case watchCease i m q hp hm hc hs hf hq =>
+      exact upd i m { m with queue := q, finished := true } _ hm rfl rfl rfl rfl rfl rfl rfl rfl rfl
+    case runInst tid rest str hp ha hr' hm hro hfl =>
+      refine ⟨inv.e1, inv.e2, ?_, forall_append_one inv.lj (by simp), ?_⟩
+      · intro i hi
+        simp only [Option.some.injEq] at hi
+        subst hi
+        exact ⟨{ todo := str, origin := some tid, subscribed := cfg.instSubBeforeStart }, by simp, rfl⟩
+      · intro i hi
+        obtain ⟨m, hm, ho⟩ := inv.so i hi
+        exact ⟨m, getElem?_append_old hm _, ho⟩
+    case runInstReg tid rest str hp ha hr' hm hro hfl =>
+      refine ⟨inv.e1, inv.e2, by simp, forall_append_one inv.lj (by simp), ?_⟩
+      intro i hi
+      obtain ⟨m, hm, ho⟩ := inv.so i hi
+      exact ⟨m, getElem?_append_old hm _, ho⟩
+    case runWake => exact same _ rfl rfl rfl rfl rfl rfl rfl
+    case runDrop => exact same _ rfl rfl rfl rfl rfl rfl rfl
+    case runRegister i hp h1 =>
+      obtain ⟨m0, hm0, ho0⟩ := inv.po i h1
+      refine ⟨inv.e1, inv.e2, by simp, ?_, ?_⟩
+      · unfold regMember
+        simp only
+        rw [hm0]
+        refine forall_set inv.lj ?_
+        intro _
+        exact Or.inl ho0
+      · intro j hj
+        obtain ⟨m, hm, ho⟩ := inv.so j hj
+        rw [regMember_getElem?]
+        by_cases hji : j = i
+        · subst hji; rw [hm]; exact ⟨{ m with counted := true, lateJoin := decide (1 ≤ s.closes) }, by simp, ho⟩
+        · exact ⟨m, by simp [hji, hm], ho⟩
+    case runDone => exact same _ rfl rfl rfl rfl rfl rfl rfl
+    case waker k wk hp hk hr' hd =>
+      have get : ∀ (j : Nat) (x : Member), s.members[j]? = some x →
+          ∃ x' : Member, (unblock s.members wk.member wk.c)[j]? = some x' ∧ x'.origin = x.origin := by
+        intro j x hj
+        rw [unblock_getElem?, hj]
+        simp only [Option.map_some]
+        split <;> exact ⟨_, rfl, rfl⟩
+      refine ⟨inv.e1, inv.e2, ?_, forall_unblock inv.lj (fun m _ hm => hm), ?_⟩
+      · intro j hj
+        obtain ⟨x, hx, hxo⟩ := inv.po j hj
+        obtain ⟨x', hx', e⟩ := get j x hx
+        exact ⟨x', hx', by rw [e]; exact hxo⟩
+      · intro j hj
+        obtain ⟨x, hx, hxo⟩ := inv.so j hj
+        obtain ⟨x', hx', e⟩ := get j x hx
+        exact ⟨x', hx', by rw [e]; exact hxo⟩
+    case waitCall hp =>
+      refine ⟨?_, fun _ => by simp, inv.po, ?_, inv.so⟩
+      · intro he _
+        simp only [Bool.or_eq_false_iff, Bool.not_eq_eq_eq_not, Bool.not_false, List.isEmpty_iff,
+          Option.isSome_eq_false_iff, Option.isNone_iff_eq_none] at he
+        exact ⟨he.1.2, he.2⟩
+      · intro m hm hlj
+        rcases inv.lj m hm hlj with h | h
+        · exact Or.inl h
+        · exact Or.inr (by simp [h])
+    case closeFirst w wt hp hw hd hwg hc0 =>
+      refine ⟨?_, ?_, inv.po, inv.lj, inv.so⟩
+      · intro he hne
+        exact inv.e1 he (by
+          intro hnil
+          rw [hnil] at hw; cases hw)
+      · intro _ hnil
+        have hl := congrArg List.length hnil
+        simp only [List.length_set, List.length_nil] at hl
+        have := lt_length_of_getElem? hw
+        omega
+    case closeGuarded w wt hp hw hd hwg hc0 ho =>
+      refine ⟨?_, ?_, inv.po, inv.lj, inv.so⟩
+      · intro he hne
+        exact inv.e1 he (by intro hnil; rw [hnil] at hw; cases hw)
+      · intro _ hnil
+        have hl := congrArg List.length hnil
+        simp only [List.length_set, List.length_nil] at hl
+        have := lt_length_of_getElem? hw
+        omega
+    case closeAgain w wt hp hw hd hwg hc0 ho =>
+      refine ⟨?_, ?_, inv.po, inv.lj, inv.so⟩
+      · intro he hne
+        exact inv.e1 he (by intro hnil; rw [hnil] at hw; cases hw)
+      · intro _ hnil
+        have hl := congrArg List.length hnil
+        simp only [List.length_set, List.length_nil] at hl
+        have := lt_length_of_getElem? hw
+        omega
+    case waitReturn w wt hp hw hres hc =>
+      refine ⟨?_, ?_, inv.po, inv.lj, inv.so⟩
+      · intro he hne
+        exact inv.e1 he (by intro hnil; rw [hnil] at hw; cases hw)
+      · intro _ hnil
+        have hl := congrArg List.length hnil
+        simp only [List.length_set, List.length_nil] at hl
+        have := lt_length_of_getElem? hw
+        omega
+    case waitTimeout w wt hp hw hres =>
+      refine ⟨?_, ?_, inv.po, inv.lj, inv.so⟩
+      · intro he hne
+        exact inv.e1 he (by intro hnil; rw [hnil] at hw; cases hw)
+      · intro _ hnil
+        have hl := congrArg List.length hnil
+        simp only [List.length_set, List.length_nil] at hl
+        have := lt_length_of_getElem? hw
+        omega
+
 end Bpmn.Model.ProcessSet
